@@ -57,6 +57,7 @@ class Engine:
         self.bound = {}              # bound variables of enclosing quantifiers (name -> V)
         self.result = None
         self.cur_st = None
+        self.cur_state_for_truth = None
 
     # ------------------------------------------------------------------ obligations
     def oblige(self, st, goal, kind, label, lineno=0, note=""):
@@ -114,7 +115,21 @@ class Engine:
         if k == "dict":
             x = z3.Const(fresh_name("w"), sort_of(v.t[1]))
             return z3.Exists([x], z3.Select(v.x[0], x))
-        if k in ("obj", "data", "closure", "graph", "opaque", "node"):
+        if k == "obj":
+            c = self.reg.lookup_method(v.t[1], "__bool__")
+            if c is not None:
+                if c.defn is None:
+                    raise OutOfSubset(f"{v.t[1]}.__bool__ needs a defn contract")
+                saved_spec, saved_bound = self.spec, dict(self.bound)
+                self.spec = True
+                self.bound["self"] = v
+                try:
+                    from .state import State as _S
+                    return self.truth(self.ev1(self.reg.parse_spec(c.defn), self.cur_state_for_truth or _S()))
+                finally:
+                    self.spec, self.bound = saved_spec, saved_bound
+            return TRUE
+        if k in ("data", "closure", "graph", "opaque", "node", "boundmethod"):
             return TRUE
         raise OutOfSubset(f"truthiness of {v.t}")
 
@@ -483,6 +498,9 @@ class Engine:
                 return [(st, recv.x[attr])]
             if attr == "__dict__":
                 return [(st, V(("objdict",), recv.x))]
+            c_ = self.reg.lookup_method(recv.t[1], attr)
+            if c_ is not None and c_.kind == "method" and not self.spec:
+                return [(st, V(("boundmethod",), (recv, attr, node.value if isinstance(node, ast.Attribute) else None)))]
             return self.reg.call_method(self, st, recv, attr, [], {}, node, is_property=True)
         if k == "opt":
             # attribute on Optional: AttributeError when None
@@ -565,6 +583,12 @@ class Engine:
         if k == "dict":
             key = to_term(coerce(idx, recv.t[1]))
             present = z3.Select(recv.x[0], key)
+            if len(recv.t) == 4 and not self.spec:
+                # defaultdict(list): a missing key yields the empty default (callers here only append to it)
+                if recv.t[2][0] not in ("bag", "set"):
+                    raise OutOfSubset("defaultdict with non-collection default")
+                empty = z3.K(sort_of(recv.t[2][1]), FALSE)
+                return [(st, V(recv.t[2], z3.If(present, z3.Select(recv.x[1], key), empty)))]
             if not self.spec:
                 s_err = st.fork()
                 s_err.assume(znot(present))
